@@ -161,9 +161,9 @@ pub fn run(a: &Args) {
     fault_mode_on();
     for p in 0..=u16::MAX {
         if p as usize % a.nshards == a.shard {
-            port_case(&mut r, p, false);
+            guarded(&mut r, "C18|Port|unexpected-panic", || format!("port {} 8 0x0 false", p), |r| port_case(r, p, false));
             if p % 16 == 0 {
-                sequences(&mut r, p, false);
+                guarded(&mut r, "C18|Port|unexpected-panic", || format!("portseq {} 8 reads false", p), |r| sequences(r, p, false));
             }
         }
     }
@@ -180,8 +180,8 @@ pub fn run(a: &Args) {
     alpha.dedup();
     for (i, &p) in alpha.iter().enumerate() {
         if i % a.nshards == a.shard {
-            port_case(&mut r, p, true);
-            sequences(&mut r, p, true);
+            guarded(&mut r, "C18|Port|unexpected-panic", || format!("port {} 8 0x0 true", p), |r| port_case(r, p, true));
+            guarded(&mut r, "C18|Port|unexpected-panic", || format!("portseq {} 8 reads true", p), |r| sequences(r, p, true));
         }
     }
     if a.shard == 0 {
